@@ -137,7 +137,7 @@ Proof.
   replace (- x / den * (- x / den) + - y / den * (- y / den)) with (x / den * (x / den) + y / den * (y / den))
     by (unfold Rdiv; ring).
   set (mag := sqrt (x / den * (x / den) + y / den * (y / den) + IZR ((-1) ^ 2))).
-  f_equal; [f_equal|]; unfold Rdiv; ring.
+  f_equal; [f_equal|..]; unfold Rdiv; ring.
 Qed.
 
 Theorem refract_odd nx ny nz n1 n2 L M N :
@@ -146,7 +146,7 @@ Theorem refract_odd nx ny nz n1 n2 L M N :
 Proof.
   unfold k_refract, k_align. rops. cbv beta iota zeta.
   replace (- L * - nx + - M * - ny + N * nz) with (L * nx + M * ny + N * nz) by ring.
-  f_equal; [f_equal|]; ring.
+  f_equal; [f_equal|..]; ring.
 Qed.
 
 Theorem reflect_odd nx ny nz L M N :
@@ -155,5 +155,32 @@ Theorem reflect_odd nx ny nz L M N :
 Proof.
   unfold k_reflect, k_align. rops. cbv beta iota zeta.
   replace (- L * - nx + - M * - ny + N * nz) with (L * nx + M * ny + N * nz) by ring.
-  f_equal; [f_equal|]; ring.
+  f_equal; [f_equal|..]; ring.
+Qed.
+
+(** ** the paraxial side is the object of C04: [par_trace] is [L_Paraxial.atrace], which C04 proves
+    equal to the model of Paraxial._trace_generic on the regenerated paraxial kernel *)
+From OV Require Lemmas.L_Paraxial.
+Theorem par_trace_is_atrace ss : forall st, par_trace ss st = L_Paraxial.atrace ss st.
+Proof.
+  induction ss as [|s ss IH]; intros [[y u] z]; [reflexivity|].
+  cbn [par_trace L_Paraxial.atrace]. unfold par_step, L_Paraxial.astep.
+  destruct (mapply (surf_matrix s z) (y, u)) as [y' u']. rewrite IH. reflexivity.
+Qed.
+
+(** the same statement with the paraxial side read off the model of Paraxial._trace_generic on the
+    REGENERATED paraxial kernel (C04's [ptrace_is_atrace]): the real records converge to what
+    optiland's own paraxial trace returns for the limit launch (h, w) *)
+Theorem real_trace_converges_kernel N0 z0 mss rss ass pss :
+  wf_sys N0 z0 mss rss ass -> Forall2 L_Paraxial.wf_surf pss ass ->
+  forall F h w x0, (N0 = 1 \/ N0 = -1) -> fam_ok F h w N0 z0 ->
+  Model.Paraxial.ptrace pss (Fin h, Fin w, Fin z0, Fin x0) = map L_Paraxial.finyu (par_trace ass (h, w, z0)) /\
+  exists C d, 0 <= C /\ 0 < d /\
+    forall e, Rabs e < d -> e <> 0 ->
+      exists recs, mtrace mss (fin4 (F e)) = Some (map fin4 recs) /\
+                   Forall2 (rec_close C e) recs (par_trace ass (h, w, z0)).
+Proof.
+  intros HS HP F h w x0 HN0 HF. split.
+  - rewrite par_trace_is_atrace. apply L_Paraxial.ptrace_is_atrace. exact HP.
+  - exact (real_trace_converges _ _ _ _ _ HS F h w HN0 HF).
 Qed.
